@@ -116,7 +116,11 @@ class _PairCase(TypeCase):
                     and isinstance(v.left, ast.Call) and isinstance(v.left.func, ast.Name) and v.left.func.id == "len" and v.left.args \
                     and _base_name(v.left.args[0]) == self.pairs and _depth(v.left.args[0]) == 1
                 after = st.get(("newpair",)) == (1, 1)
-                st.bump(("openstore", "index of the new pairing" if ok and after else ("len-1 before the append" if ok else short(v, 40))))
+                # the same index taken the other way round: len(pairings) *before* the new pairing is appended (the case requires that
+                # exactly one new pairing is appended, so an append follows on this path)
+                plain = isinstance(v, ast.Call) and isinstance(v.func, ast.Name) and v.func.id == "len" and v.args \
+                    and _base_name(v.args[0]) == self.pairs and _depth(v.args[0]) == 1 and st.get(("newpair",)) == (0, 0)
+                st.bump(("openstore", "index of the new pairing" if (ok and after) or plain else ("len-1 before the append" if ok else short(v, 40))))
                 st.vals["$open"] = frozenset([True])
                 return st
         if isinstance(s, ast.Expr) and isinstance(s.value, ast.Call) and call_method(s.value)[1] == "pop" \
